@@ -563,6 +563,31 @@ func (ex *Exec) verifCall(fr *Frame, f *ssa.Function, cc *ssa.CallCommon, args [
 		}
 		ex.regions = append(ex.regions, o)
 		return Slice{Ptr{obj: o, off: c.Const(64, 0)}, capa, capa}
+	case "Havoc":
+		// Havoc(p, n, label): the n bytes at p get arbitrary content (an uninterpreted array), everything else in the object keeps its value
+		p := args[0].(Ptr)
+		n := args[1].(*Term)
+		label := ex.labelOf(args[2])
+		if p.obj == nil || !p.off.IsConst() || !n.IsConst() || p.obj.arr != "" || len(p.obj.log) != 0 {
+			panic(unsupported("Havoc needs a concrete range in a plain object"))
+		}
+		o := p.obj
+		o.touch(ex)
+		lo, hi := int64(p.off.Val), int64(p.off.Val+n.Val)
+		ex.checkAccess(o, p.off, int64(n.Val), true)
+		for k := int64(0); k < o.size; k++ {
+			if k >= lo && k < hi {
+				continue
+			}
+			if _, _, ok := o.coveringCell(k); !ok {
+				o.cells[k] = cell{1, c.Const(8, 0), 0}
+			}
+		}
+		ex.clearRange(o, lo, hi-lo)
+		o.arr = "A!" + sanitize(label)
+		o.havocLabel = label
+		ex.havocs = append(ex.havocs, o)
+		return nil
 	case "Limit":
 		label := ex.labelOf(args[0])
 		for _, o := range ex.regions {
